@@ -24,68 +24,18 @@ fn backend() -> &'static str {
     }
 }
 
+/// every area contributes `gen(stream, thorough, rng) -> Option<Result<(), String>>` (None = not mine);
+/// add new areas to this list (one line each)
 fn gen(stream: &str, tier: &str, seed: u64) -> Result<(), String> {
     let mut rng = Rng::new(seed);
     let thorough = tier == "thorough";
-    match stream {
-        "reg" => {
-            let cd = fixtures::load_fixture("gvt_rev")?;
-            // corpus first: boundary histories chosen at design time
-            let corpus: Vec<(u32, bool, Vec<serde_json::Value>)> = vec![
-                (2, false, vec![json!({"op":"issue","i":2}), json!({"op":"revoke","i":0})]),
-                (2, false, vec![json!({"op":"issue","i":1}), json!({"op":"revoke","i":3}), json!({"op":"revoke","i":4})]),
-                (3, true, vec![json!({"op":"revoke","i":4294967295u32}), json!({"op":"unrevoke","i":0}), json!({"op":"update","issued":[0],"revoked":[]})]),
-                (3, false, vec![json!({"op":"issue","i":2}), json!({"op":"issue","i":3}), json!({"op":"revoke","i":2}), json!({"op":"unrevoke","i":2}), json!({"op":"update","issued":[1],"revoked":[3]})]),
-                (1, true, vec![json!({"op":"issue","i":1}), json!({"op":"revoke","i":1}), json!({"op":"unrevoke","i":1})]),
-                (4, true, vec![json!({"op":"issue","i":2}), json!({"op":"update","issued":[],"revoked":[1,2,3]}), json!({"op":"update","issued":[2,3],"revoked":[4]}), json!({"op":"issue","i":4})]),
-            ];
-            let opts = reg::HistOpts { max_l: 32, max_depth: 40, with_holders: true, illformed_pct: 4, wild_pct: 10 };
-            for (k, (l, bd, ops)) in corpus.into_iter().enumerate() {
-                for c in reg::run_history(&cd, &mut rng, &format!("reg/corpus/{}", k), &opts, Some((l, bd, ops)))? {
-                    emit(&c);
-                }
-            }
-            let n = if thorough { 1500 } else { 40 };
-            for k in 0..n {
-                for c in reg::run_history(&cd, &mut rng, &format!("reg/{}", k), &opts, None)? {
-                    emit(&c);
-                }
-            }
-            if thorough {
-                // exhaustive tree L<=3 (indices 0..=L+1, three single-index ops), depth <= 3; depth 4 for L<=2
-                let opts2 = reg::HistOpts { max_l: 3, max_depth: 4, with_holders: false, illformed_pct: 0, wild_pct: 0 };
-                let mut k = 0;
-                for l in 1..=3u32 {
-                    let maxd = if l <= 2 { 4 } else { 3 };
-                    for d in 1..=maxd {
-                        for script in reg::enumerate_scripts(l, d) {
-                            for bd in [false, true] {
-                                for c in reg::run_history(&cd, &mut rng, &format!("reg/tree/{}", k), &opts2, Some((l, bd, script.clone())))? {
-                                    emit(&c);
-                                }
-                                k += 1;
-                            }
-                        }
-                    }
-                }
-            }
-            Ok(())
+    let gens: Vec<fn(&str, bool, &mut Rng) -> Option<Result<(), String>>> = vec![reg::gen];
+    for g in gens {
+        if let Some(r) = g(stream, thorough, &mut rng) {
+            return r;
         }
-        "tails" => {
-            let cd = fixtures::load_fixture("gvt_rev")?;
-            let maxl = if thorough { 64 } else { 24 };
-            for l in 1..=maxl {
-                emit(&reg::run_tails(&cd, l, &format!("tails/{}", l))?);
-            }
-            let extra = if thorough { 12 } else { 2 };
-            for k in 0..extra {
-                let l = 65 + rng.below(if thorough { 9936 } else { 400 }) as u32;
-                emit(&reg::run_tails(&cd, l, &format!("tails/sampled/{}", k))?);
-            }
-            Ok(())
-        }
-        s => Err(format!("unknown stream {}", s)),
     }
+    Err(format!("unknown stream {}", stream))
 }
 
 fn main() {
